@@ -81,7 +81,7 @@ func ruleCommitTally(c *Ctx) {
 		commit, chain := "", paramName(f, 1)
 		for _, p := range f.Params {
 			if n := derefNamed(p.Type()); n != nil && n.Obj().Name() == "Commit" {
-				commit = p.Name()
+				commit = canonParamName(p)
 			}
 		}
 		C := q(commit)
